@@ -24,9 +24,16 @@ def wire_cases(ctx, classes, n_schema, gen, per_class, p_send, p_unknown):
     cases = []
     for idx in range(n_schema):
         cls = classes[idx]
-        for _ in range(per_class):
-            val = gen.entity(cls)
-            dv = refenc.decorate(gen, cls, val, p_send, p_unknown)
+        from ..values import describe as _describe
+        has_tags = any(d.tag is not None for d in _describe(cls))
+        plan = [(None, p_send, p_unknown)] * per_class
+        if has_tags:
+            # deterministic coverage of the tagged section: every tagged field absent (defaults),
+            # every default sent explicitly, every tagged field present with a non-default value
+            plan = plan + [(True, 0.0, p_unknown), (True, 1.0 if p_send > 0 else 0.0, 0.0), (False, 0.0, 0.0)]
+        for want_default, ps, pu in plan:
+            val = gen.entity(cls, want_default=want_default)
+            dv = refenc.decorate(gen, cls, val, ps, pu)
             ref = refenc.enc_entity(dv)
             tail = bytes(r.getrandbits(8) for _ in range(r.choice([0, 0, 2])))
             data = ref + tail
